@@ -259,6 +259,7 @@ proof fn lemma_c10_own_valid(enc: Seq<u8>)
     assert((c ^ 0x5354_554eu32) ^ 0x5354_554eu32 == c) by (bit_vector);
 }
 //@include inc/attrs_sum.rs
+//@include inc/post_n.rs
 proof fn vx_sentinel() ensures false {}
 } // verus!
 fn main() {}
